@@ -200,17 +200,7 @@ impl BuilderState {
         Some(BuilderState { squares: p.board.to_vec(), stm, castle, ep_file })
     }
     pub fn build(&self) -> BoardBuilder {
-        let mut bb = BoardBuilder::new();
-        for (i, s) in self.squares.iter().enumerate() {
-            if let Some((c, k)) = s {
-                bb.piece(bridge::sq(i as u8), bridge::kind(*k), bridge::col(*c));
-            }
-        }
-        bb.side_to_move(bridge::col(self.stm));
-        bb.castle_rights(Color::White, bridge::rights(self.castle[0], self.castle[1]));
-        bb.castle_rights(Color::Black, bridge::rights(self.castle[2], self.castle[3]));
-        bb.en_passant(self.ep_file.map(|f| File::from_index(f as usize)));
-        bb
+        bridge::fill_builder(&self.squares, self.stm, self.castle, self.ep_file, fp(&format!("{:?}", self)) >> 9)
     }
 }
 
